@@ -1090,12 +1090,12 @@ func (f *Frame) copyBuiltin(ins ssa.CallInstruction, st State) (State, Val) {
 // ---- map / string range (non-deterministic order) ----
 
 func (f *Frame) rangeInit(ins *ssa.Range, st State) (Val, State) {
-	f.fail("range over map/string is not supported yet")
-	f.vc.Outside["range over map or string"] = true
+	// the iterator itself has no effect; an unsupported use is reported at Next
 	return Val{T: IntLit(0)}, st
 }
 
 func (f *Frame) rangeNext(ins *ssa.Next, st State) (Val, State) {
+	f.fail("range over map/string is not supported (only the map-clearing idiom is)")
 	f.vc.Outside["range over map or string"] = true
 	tt := ins.Type().(*types.Tuple)
 	var v Val
